@@ -58,7 +58,7 @@ func envInt(name string, def int64) int64 {
 
 func watchdog() {
 	cpuLimit := envInt("VW_CPU_LIMIT_S", 30) * 1e6
-	rssLimit := envInt("VW_RSS_LIMIT_MB", 3072) << 20
+	rssLimit := envInt("VW_RSS_LIMIT_MB", 1536) << 20
 	for {
 		time.Sleep(100 * time.Millisecond)
 		id := curCase.Load()
